@@ -33,7 +33,9 @@ RULE = ("a real Input (optionally persistent) or InputExp in a running circuit o
         "values, InputExp sequences of length 3); 18 configurations with `allowed` x 7 collection kinds x 5 "
         "caller-mutation patterns x Input / InputExp / restored start; all 6 orders x 8 type patterns x 3 "
         "validator variants of three blocks built from ONE scratch set that is cleared and refilled for each "
-        "block. Random: 20 000 (quick) / 150 000 configurations (allowed subsets in a random collection kind "
+        "block; 27 configurations x 22 saved states of a persistent InputExp (state valid with a running / no / "
+        "overdue timer x 6 saved values, missing value, state expired with and without stale value or timestamp) "
+        "x with/without initdef x duration 10 s / infinite, followed by puts and waits. Random: 20 000 (quick) / 150 000 configurations (allowed subsets in a random collection kind "
         "with random caller mutations in 40 % of them, check/schema tables with falsy/truthy results of many "
         "types, schemas raising random classes, UNDEF results, unhashable members of `allowed`) with sequences "
         "up to length 12 over a 22-value domain, and 600 / 6 000 random groups of 2-4 blocks sharing one "
@@ -49,7 +51,9 @@ ASSUMPTIONS = [
     "generated rarely; it is not generated for initdef/expired/restored values",
     "InputExp: no stimulus falls on the very instant of the expiration (waits of 4 s and 7 s never add up to "
     "the duration of 10 s); same-instant order is C04's subject; blocks sharing a scratch set get no waits",
-    "InputExp restores its saved state without validation (DESIGN.md section 6); not exercised here",
+    "a persistent InputExp is restarted with the storage entry (state, expiration timestamp, sdata) that "
+    "FSM.get_state() writes; the wall clock is the virtual one (harness/vtime.py); remaining times of 5, 6 and "
+    "9 s never coincide with sums of the waits",
     "whatever exception the code under test raises (constructor, start-up, event) is recorded as the outcome "
     "of that step and compared / judged; it never terminates the check",
 ]
@@ -190,6 +194,8 @@ def scenarios(rng, tier):
     yield _in(CONFIGS[9], 'i1', None, [['put', 'l[i1]'], ['put', 'i2']])
     yield _in(PRESENCE[4], 'i2', 'l[i1]', [['put', 'i1']])
     yield _exp(PRESENCE[4], 'i2', 'i1', [['put', 'l[i1]'], ['wait', 4], ['put', 'i1']])
+    # --- a saved InputExp state whose value the validators refuse
+    yield {**_exp(PRESENCE[4], 'i2', 'i1', [['wait', 4], ['put', 'i1']]), 'saved': ['valid', 5, 'i3']}
     # --- init matrix (Input): configuration x initdef x restored
     for cfg in CONFIGS:
         for initdef in ['u'] + D6:
@@ -264,6 +270,19 @@ def scenarios(rng, tier):
             init = _valid_initdef(cfg, D5)
             for seq in itertools.product(D5, repeat=6):
                 yield _in(cfg, init, None, [['put', v] for v in seq])
+    # --- a persistent InputExp is started from a saved state: the saved value passes through the validation
+    tail = [['wait', 4], ['put', 'b1'], ['wait', 7], ['put', 'i2'], ['wait', 7], ['wait', 4]]
+    for cfg in CONFIGS:
+        init = _valid_initdef(cfg, D6 + ['n'])
+        if init is None:
+            continue
+        expired = init if not _spec_accept(cfg, 'n')[0] else 'n'
+        saves = [['valid', rel, v] for rel in (5, None, -5) for v in D6]
+        saves += [['valid', 6, None], ['expired', None, None], ['expired', None, 'i2'], ['expired', 9, 'i1']]
+        for saved in saves:
+            for initdef in ('u', init):
+                for dur in (10, 'inf'):
+                    yield {**_exp(cfg, initdef, expired, [list(o) for o in tail]), 'saved': saved, 'duration': dur}
     # --- InputExp sequences: puts and waits (duration 10)
     alpha = [['put', 'i1'], ['put', 'b1'], ['put', 'i2'], ['put', 'l[i1]'], ['wait', 4], ['wait', 7]]
     for cfgs, n in ((PRESENCE, 4),) if quick else ((CONFIGS, 4), (PRESENCE, 5)):
@@ -335,6 +354,13 @@ def scenarios(rng, tier):
                 if not _init_safe(cfg, 'n'):
                     continue
                 expired = 'n'
+            if rng.random() < 0.3:
+                inp = rng.choice([None, pick(), pick(), pick()])
+                if inp is not None and not _init_safe(cfg, inp):
+                    inp = None
+                extra['saved'] = [rng.choice(['valid', 'valid', 'valid', 'expired']),
+                                  rng.choice([None, 5, 6, 9, -5, 0]), inp]
+                extra['duration'] = rng.choice([10, 10, 'inf'])
             yield {**_exp(cfg, pick_init(True), expired, with_muts(ops)), **extra}
     # --- random groups of blocks built from one scratch set
     for _ in range(600 if quick else 6000):
@@ -365,6 +391,12 @@ def shrink(scn):
                     yield {**scn, 'blocks': blocks[:i] + [cand] + blocks[i + 1:]}
         return
     yield from shrink_ops(scn)
+    if scn.get('saved') is not None:
+        st, rel, inp = scn['saved']
+        if rel is not None and rel > 0:
+            yield {**scn, 'saved': [st, None, inp]}
+        if scn.get('duration') == 'inf':
+            yield {**scn, 'duration': 10}
     if scn.get('premut'):
         yield from shrink_ops(scn, 'premut')
     if scn.get('restored') is not None:
@@ -471,8 +503,8 @@ def _mut_line(m):
 class _Block:
     """one Input / InputExp of a scenario: protocol lines, canonical trace, raw steps for the oracle"""
 
-    def __init__(self, scn, name='inp'):
-        self.scn, self.name = scn, name
+    def __init__(self, scn, name='inp', world=None):
+        self.scn, self.name, self.world = scn, name, world
         self.kind = scn['kind']
         self.lines, self.trace, self.steps, self.log = [], [], [], []
         self.blk = None
@@ -501,7 +533,16 @@ class _Block:
                     circuit.set_persistent_data({f"<Input '{self.name}'>": dec(restored)})
                 blk = edzed.Input(self.name, persistent=restored is not None, **kw)
             else:
-                blk = edzed.InputExp(self.name, duration=scn['duration'], expired=dec(scn['expired']), **kw)
+                saved = scn.get('saved')
+                if saved is not None:
+                    # what FSM.get_state() left in the storage: (state, expiration timestamp | None, sdata)
+                    st, rel, inp = saved
+                    ts = None if rel is None else self.world.now_us() / 1e6 + rel
+                    circuit.set_persistent_data(
+                        {f"<InputExp '{self.name}'>": (st, ts, {} if inp is None else {'input': dec(inp)})})
+                dur = float('inf') if scn['duration'] == 'inf' else scn['duration']
+                blk = edzed.InputExp(self.name, duration=dur, expired=dec(scn['expired']),
+                                     persistent=saved is not None, **kw)
         except Exception as err:
             self.trace.append('err ' + type(err).__name__ + _calls(log))
             self.steps.append(('ctor', type(err).__name__, None, None))
@@ -533,13 +574,17 @@ class _Block:
     def begin_init(self):
         if not self.dead:
             restored = self.scn.get('restored')
+            saved = self.scn.get('saved')
+            if saved is not None:
+                st, rel, inp = saved
+                restored = f"R|{st}|{'-' if rel is None else rel}|{'-' if inp is None else inp}"
             self.lines.append(f"validate init {'-' if restored is None else restored}")
 
     def init_failed(self, sim):
         if self.dead:
             return
         what = 'NotInitialized' if 'not initialized' in str(sim.final_error) else 'Abort'
-        self.trace.append('err ' + what + (_calls(self.log) if self.kind == 'in' else ''))
+        self.trace.append('err ' + what + _calls(self.log))
         self.steps.append(('init', what, None))
         self.dead = True
 
@@ -562,9 +607,8 @@ class _Block:
             trace.append('ok ' + enc(blk.output) + _calls(log))
             steps.append(('init', 'ok', blk.output))
         else:
-            trace.append('ok ' + self.exp_str())
+            trace.append('ok ' + self.exp_str() + _calls(log))
             steps.append(('init', 'ok', self.exp_obs()))
-            del log[:]
         t_us = sim.loop.now_us
         for o in self.scn['ops']:
             op, arg = o[0], o[1]
@@ -616,10 +660,21 @@ class _Block:
 
 
 def run_impl(scn):
+    if scn.get('saved') is None:
+        return _run_impl(scn, None)
+    world = vtime.World()           # FSM._restore_state reads the wall clock
+    vtime.install(world)
+    try:
+        return _run_impl(scn, world)
+    finally:
+        vtime.uninstall()
+
+
+def _run_impl(scn, world):
     multi = scn['kind'] == 'multi'
     subs = scn['blocks'] if multi else [scn]
-    blocks = [_Block(sub, f'inp{i}' if multi else 'inp') for i, sub in enumerate(subs)]
-    sim = Sim()
+    blocks = [_Block(sub, f'inp{i}' if multi else 'inp', world) for i, sub in enumerate(subs)]
+    sim = Sim(world=world)
 
     def build(circuit):
         shared = set() if multi else None
@@ -673,6 +728,10 @@ def run_impl(scn):
         tags.append('unhashable-put')
     if any(st[0] == 'mut' for st in allsteps):
         tags.append('caller-mutates-allowed')
+    if first.get('saved') is not None:
+        st_, rel_, inp_ = first['saved']
+        tags.append(f"saved={st_}/{'no-timer' if rel_ is None else 'running' if rel_ > 0 else 'overdue'}/"
+                    + ('no-value' if inp_ is None else 'accepted' if _accept(first, inp_)[0] else 'refused'))
     for sub in subs:
         if sub['allowed'] is not None:
             tags.append('akind=' + sub.get('akind', 'list'))
@@ -747,7 +806,17 @@ def _obs_key(obs):
 
 def oracle(scn, res):
     if scn['kind'] != 'multi':
-        return _oracle_block(scn, res['steps'], res)
+        out = _oracle_block(scn, res['steps'], res)
+        saved = scn.get('saved')
+        if out and saved is not None and saved[0] == 'valid' and (saved[2] is None or not _accept(scn, saved[2])[0]):
+            # everything that goes wrong after a saved state with a refused value (its timer running on, ...)
+            # is the restore that should not have happened
+            for v in out:
+                if v['clause'] != 'restore_validated':
+                    v['what'] = (f"the saved state {saved} has no acceptable value and must not be restored, but "
+                                 f"[{v['clause']}] " + v['what'])
+                    v['clause'], v['sig'] = 'restore_validated', {'block': 'InputExp'}
+        return out
     out = []
     for i, (sub, steps) in enumerate(zip(scn['blocks'], res['steps'])):
         for v in _oracle_block(sub, steps, res):
@@ -931,25 +1000,54 @@ def _oracle_block(scn, steps, res):
         if ctor[2] is UNDEF or enc(ctor[2]) != enc(val):
             return bad('bad_initdef_refused', f'initial value kept as {ctor[2]!r}, expected {val!r}')
     if init[1] != 'ok':
+        if scn.get('saved') is not None:
+            return bad('restore_validated', f"InputExp did not start from the saved state {scn['saved']}: {init[1]} "
+                                            f"({res.get('final_error')})", block='InputExp')
         return bad(init_clause('init'), f'InputExp did not start: {init[1]} ({res.get("final_error")})')
-    now, deadline = 0, (scn['duration'] if val is not UNDEF else None)
+    inf = float('inf')
+    dur = inf if scn['duration'] == 'inf' else scn['duration']
+    now = 0
+    state = {'valid': val is not UNDEF, 'deadline': dur}      # the regular initialisation
+    saved = scn.get('saved')
+    if saved is not None:
+        # "a restored persistent value passes through the same validation": a saved 'valid' state is taken
+        # over (value converted, timer with its remaining time) iff its value is accepted; a refused or
+        # missing value, an overdue timer or a broken entry leave the block to its regular initialisation
+        s_st, s_rel, s_inp = saved
+        if s_rel is not None and s_rel <= 0:
+            pass
+        elif s_st == 'expired':
+            if s_rel is None:
+                state = {'valid': False, 'deadline': dur}
+        elif s_inp is not None and _accept(scn, s_inp)[0]:
+            if _accept(scn, s_inp)[1] == 'u':
+                return out
+            val = note(_accept(scn, s_inp)[1])
+            state = {'valid': True, 'deadline': inf if s_rel is None else s_rel}
     prev = init[2]
 
-    def expect_obs(obs, where):
+    def expect_obs(obs, where, clause=None):
         st, output, v = obs
-        if val is not UNDEF and deadline is not None:
+        if state['valid']:
             if st != 'valid' or not _same(output, val) or not _same(v, val):
-                return bad('output_is_last_accepted', f'{where}: state {st}, output {output!r}, value {v!r}; '
-                                                      f'expected valid with {val!r}')
+                return bad(clause or 'output_is_last_accepted',
+                           f'{where}: state {st}, output {output!r}, value {v!r}; expected valid with {val!r}')
             if enc(output) not in accepted_encs or enc(v) != enc(val):
-                return bad('output_always_valid', f'{where}: {output!r}/{v!r} not among {sorted(accepted_encs)}')
+                return bad(clause or 'output_always_valid',
+                           f'{where}: {output!r}/{v!r} not among {sorted(accepted_encs)}')
         else:
             if st != 'expired' or not _same(output, dec(exp_w)):
-                return bad('bad_expired_refused', f'{where}: state {st}, output {output!r}; expected expired '
-                                                  f'with {dec(exp_w)!r}')
+                return bad(clause or 'bad_expired_refused',
+                           f'{where}: state {st}, output {output!r}; expected expired with {dec(exp_w)!r}')
         return None
 
-    if expect_obs(prev, 'after start-up'):
+    if saved is not None:
+        if expect_obs(prev, f'after start-up from the saved state {saved} (validators: allowed={scn["allowed"]}, '
+                            f'check {"given" if scn["check"] else "-"}, schema {"given" if scn["schema"] else "-"})',
+                      'restore_validated'):
+            out[-1]['sig'] = {'block': 'InputExp'}
+            return out
+    elif expect_obs(prev, 'after start-up'):
         return out
     for i, st in enumerate(rest):
         if st[0] == 'mut':
@@ -957,8 +1055,8 @@ def _oracle_block(scn, steps, res):
             continue
         if st[0] == 'wait':
             now += st[1]
-            if deadline is not None and deadline <= now:
-                deadline = None
+            if state['valid'] and state['deadline'] <= now:
+                state['valid'] = False
             if expect_obs(st[2], f'wait #{i}'):
                 return out
             prev = st[2]
@@ -970,7 +1068,7 @@ def _oracle_block(scn, steps, res):
         v, obs = st[1], st[3]
         if ok:
             val = note(w)
-            deadline = now + scn['duration']
+            state['valid'], state['deadline'] = True, now + dur
         elif _obs_key(obs) != _obs_key(prev):
             return bad('reject_changes_nothing', f'refused put #{i} of {v}: {prev!r} -> {obs!r}')
         if expect_obs(obs, f'put #{i} of {v}'):
